@@ -56,14 +56,22 @@ Proof.
   repeat match goal with |- context [if ?c then _ else _] => destruct c eqn:? end; lia.
 Qed.
 
-Lemma slice_bounds_range : forall s e n st en, (0 <= n)%Z -> slice_bounds s e n = (st, en) ->
+Lemma slice_bounds_gen_range : forall fs fe s e n st en, (0 <= n)%Z -> slice_bounds_gen fs fe s e n = (st, en) ->
   (0 <= st <= en)%Z /\ (en <= n)%Z.
 Proof.
-  intros s e n st en Hn H. unfold slice_bounds in H. inversion H; subst; clear H.
-  assert (0 <= match s with Some i => clamp i 0 n | None => 0 end <= n)%Z.
+  intros fs fe s e n st en Hn H. unfold slice_bounds_gen in H. inversion H; subst; clear H.
+  assert (0 <= match s with Some b => clamp (fs b) 0 n | None => 0 end <= n)%Z.
   { destruct s; [apply clamp_range|]; lia. }
-  destruct e; [pose proof (clamp_range z _ n (proj2 H))|]; lia.
+  destruct e as [b|]; [pose proof (clamp_range (fe b) _ n (proj2 H))|]; lia.
 Qed.
+
+Lemma slice_bounds_range : forall s e n st en, (0 <= n)%Z -> slice_bounds_write s e n = (st, en) ->
+  (0 <= st <= en)%Z /\ (en <= n)%Z.
+Proof. intros. eapply slice_bounds_gen_range; eauto. Qed.
+
+Lemma slice_bounds_read_range : forall s e n st en, (0 <= n)%Z -> slice_bounds_read s e n = (st, en) ->
+  (0 <= st <= en)%Z /\ (en <= n)%Z.
+Proof. intros. eapply slice_bounds_gen_range; eauto. Qed.
 
 (* ---- updateArraySlice with nothing after the slice: the resliced window is not used ---- *)
 Definition slice_write (h : heap) (A : alloc) (v : hval) (st en : nat) (n : hval) : option (heap * alloc * hval) :=
@@ -104,7 +112,7 @@ Lemma update_slice_last_eq : forall cfg h A v s e n,
   update cfg h A v [PS s e] n =
   match v with
   | HNull | HNilArr | HArr _ _ _ _ =>
-      let '(st, en) := slice_bounds s e (Z.of_nat (hlen v)) in
+      let '(st, en) := slice_bounds_write s e (Z.of_nat (hlen v)) in
       let st := Z.to_nat st in let en := Z.to_nat en in
       if Nat.eqb st en && h_is_empty n then Some (h, A, norm_nil v)
       else slice_write h A v st en n
@@ -113,7 +121,7 @@ Lemma update_slice_last_eq : forall cfg h A v s e n,
   end.
 Proof.
   intros. destruct v; try reflexivity; cbn [update];
-    destruct (slice_bounds s e (Z.of_nat (hlen _))) as [st en];
+    destruct (slice_bounds_write s e (Z.of_nat (hlen _))) as [st en];
     destruct (Nat.eqb (Z.to_nat st) (Z.to_nat en) && h_is_empty n); try reflexivity;
     destruct n; reflexivity.
 Qed.
@@ -355,7 +363,7 @@ Proof.
   assert (Hmain : forall js E fps, arr_node h ps js v E fps fp -> elems h v = E -> hlen v = length js ->
     norm_nil v = v -> (j = JNull \/ j = JArr js) ->
     match
-      (let '(st, en) := slice_bounds s e (zlen js) in
+      (let '(st, en) := slice_bounds_write s e (zlen js) in
        if (st =? en)%Z && is_empty jn then Some j
        else match jn with
             | JArr u => Some (JArr (firstn (Z.to_nat st) js ++ u ++ skipn (Z.to_nat en) js))
@@ -364,12 +372,12 @@ Proof.
             end)
     with
     | None =>
-        (let '(st, en) := slice_bounds s e (Z.of_nat (hlen v)) in
+        (let '(st, en) := slice_bounds_write s e (Z.of_nat (hlen v)) in
          let st := Z.to_nat st in let en := Z.to_nat en in
          if Nat.eqb st en && h_is_empty n then Some (h, Some ps, norm_nil v)
          else slice_write h (Some ps) v st en n) = None
     | Some j' => exists h' ps' u fp',
-        (let '(st, en) := slice_bounds s e (Z.of_nat (hlen v)) in
+        (let '(st, en) := slice_bounds_write s e (Z.of_nat (hlen v)) in
          let st := Z.to_nat st in let en := Z.to_nat en in
          if Nat.eqb st en && h_is_empty n then Some (h, Some ps, norm_nil v)
          else slice_write h (Some ps) v st en n) = Some (h', Some ps', u) /\
@@ -379,7 +387,7 @@ Proof.
     destruct (node_facts _ _ _ _ _ _ _ Hnode ND) as (Hrep & NDc & Hcl).
     destruct (reps3_length _ _ _ _ Hrep) as [L1 L2].
     unfold zlen. rewrite Hhl, Hnn.
-    destruct (slice_bounds s e (Z.of_nat (length js))) as [zs ze] eqn:SB.
+    destruct (slice_bounds_write s e (Z.of_nat (length js))) as [zs ze] eqn:SB.
     destruct (slice_bounds_range _ _ _ _ _ (Nat2Z.is_nonneg _) SB) as [[B1 B2] B3].
     set (st := Z.to_nat zs). set (en := Z.to_nat ze).
     assert (Hse : st <= en) by (unfold st, en; lia).
